@@ -246,6 +246,9 @@ class Client(object):
         """
         reply = self.custom_command(b'STARTTLS')
         if reply.code == '220':
+            # Replies injected in the clear behind the 220 must not be taken
+            # for replies to commands sent over TLS.
+            self.io.recv_buffer = b''
             self.encrypt(context)
         return reply
 
